@@ -69,14 +69,14 @@ Definition fields_in (e : env) (fs : list (ident * pty)) : M (list (string * (sp
   lift (fun st => rbind (fields_r (with_env st e) fs) (fun '(oks, errs) =>
                   match errs with [] => Ok oks | _ => Err errs end)).
 
-Fixpoint expr_s (fuel : nat) (e : env) (x : pexpr) {struct fuel} : M expr :=
+Fixpoint expr_s (lf : bool) (fuel : nat) (e : env) (x : pexpr) {struct fuel} : M expr :=
   match fuel with
   | 0 => fun _ => OutOfFuel
   | S f =>
-    let re := expr_s f e in
-    let rs := stmt_s f in
+    let re := expr_s lf f e in
+    let rs := stmt_s lf f in
     match x with
-    | PGet a _ => assign_s f e a
+    | PGet a _ => assign_s lf f e a
     | PAdd a b sp => binop_with re Add a b sp
     | PSub a b sp => binop_with re Sub a b sp
     | PMul a b sp => binop_with re Mul a b sp
@@ -123,7 +123,7 @@ Fixpoint expr_s (fuel : nat) (e : env) (x : pexpr) {struct fuel} : M expr :=
         self_var <- new_var (mkIdent "self" sp) Mutable ;;
         (* `self` is in scope exactly inside the fields that are function literals *)
         fields' <- mapM (fun fld => let '(n, v) := fld in
-                                    v' <- expr_s f (if is_function v then [("self", self_var)] :: e else e) v ;;
+                                    v' <- expr_s lf f (if is_function v then [("self", self_var)] :: e else e) v ;;
                                     ret (n, v')) fields ;;
         ret (EBlob b fields' self_var sp)
     | PTuple vs sp => vs' <- mapM re vs ;; ret (ECollection CTuple vs' sp)
@@ -136,17 +136,17 @@ Fixpoint expr_s (fuel : nat) (e : env) (x : pexpr) {struct fuel} : M expr :=
     end
   end
 
-with assign_s (fuel : nat) (e : env) (a : passign) {struct fuel} : M expr :=
+with assign_s (lf : bool) (fuel : nat) (e : env) (a : passign) {struct fuel} : M expr :=
   match fuel with
   | 0 => fun _ => OutOfFuel
   | S f =>
-    let re := expr_s f e in
+    let re := expr_s lf f e in
     match a with
     | ARead i _ =>
         v <- lookup_in e (i_name i) (i_span i) ;;
         ret (ERead v (i_span i))
     | AVariant enum_ass variant value sp =>
-        x <- assign_s f e enum_ass ;;
+        x <- assign_s lf f e enum_ass ;;
         match x with
         | ERead v _ =>
             value' <- re value ;;
@@ -154,18 +154,19 @@ with assign_s (fuel : nat) (e : env) (a : passign) {struct fuel} : M expr :=
         | _ => fail EVariantNotRead sp
         end
     | ACall fn args sp =>
-        fn' <- assign_s f e fn ;;
+        fn' <- assign_s lf f e fn ;;
         args' <- mapM re args ;;
         ret (ECall fn' args' sp)
     | AArrowCall extra fn args sp =>
         extra' <- re extra ;;
-        fn' <- assign_s f e fn ;;
+        fn' <- assign_s lf f e fn ;;
         args' <- mapM re args ;;
         ret (ECall fn' (extra' :: args') sp)
     | AAccess a' i sp =>
-        (* `n.x` where n names an imported namespace of this file -- unless the root of the chain is a
-           declaration in scope: a local shadows a namespace of the same name *)
-        ns <- lift (fun st => if root_on_stack (with_env st e) a' then Ok None
+        (* `n.x` where n names an imported namespace of this file -- unless (lf = true, the documented
+           rule) the root of the chain is a declaration in scope: a local shadows a namespace of the
+           same name.  With lf = false the namespace table wins (what the code does: DESIGN 7 row 20). *)
+        ns <- lift (fun st => if lf && root_on_stack (with_env st e) a' then Ok None
                               else namespace_list st (sp_file sp) a') ;;
         match ns with
         | Some ns =>
@@ -176,23 +177,23 @@ with assign_s (fuel : nat) (e : env) (a : passign) {struct fuel} : M expr :=
             | None => fail ENothingMatched sp
             end
         | None =>
-            v <- assign_s f e a' ;;
+            v <- assign_s lf f e a' ;;
             ret (EBlobAccess v (i_name i) (i_span i))
         end
     | AIndex a' idx sp =>
-        v <- assign_s f e a' ;;
+        v <- assign_s lf f e a' ;;
         idx' <- re idx ;;
         ret (EIndex v idx' sp)
     | AExpression x _ => re x
     end
   end
 
-with stmt_s (fuel : nat) (e : env) (s : pstmt) {struct fuel} : M (option stmt * env) :=
+with stmt_s (lf : bool) (fuel : nat) (e : env) (s : pstmt) {struct fuel} : M (option stmt * env) :=
   match fuel with
   | 0 => fun _ => OutOfFuel
   | S f =>
-    let re := expr_s f e in
-    let rs := stmt_s f in
+    let re := expr_s lf f e in
+    let rs := stmt_s lf f in
     let same (o : option stmt) : M (option stmt * env) := ret (o, e) in
     match s with
     | PEmptyStatement _ | PFromUse _ _ _ _ | PUse _ _ _ _ => same None
@@ -214,7 +215,7 @@ with stmt_s (fuel : nat) (e : env) (s : pstmt) {struct fuel} : M (option stmt * 
             (* a global: its initialiser is a scope of its own; the variable is the file's global of
                that name.  (The code allocates a marker variable first; it can never be referred to.) *)
             m <- new_var (mkIdent (stack_begin_name (i_name i)) (i_span i)) k ;;
-            value' <- expr_s f [[(stack_begin_name (i_name i), m)]] value ;;
+            value' <- expr_s lf f [[(stack_begin_name (i_name i), m)]] value ;;
             v <- lookup_in [] (i_name i) sp ;;
             t' <- ty_in [] t ;;
             ret (Some (SDefinition (i_name i) v k t' value' (i_span i)), [])
@@ -223,7 +224,7 @@ with stmt_s (fuel : nat) (e : env) (s : pstmt) {struct fuel} : M (option stmt * 
               (* a function is visible in its own body *)
               v <- new_var i k ;;
               let e' := env_add e (i_name i) v in
-              value' <- expr_s f e' value ;;
+              value' <- expr_s lf f e' value ;;
               t' <- ty_in e' t ;;
               ret (Some (SDefinition (i_name i) v k t' value' (i_span i)), e')
             else
@@ -236,7 +237,7 @@ with stmt_s (fuel : nat) (e : env) (s : pstmt) {struct fuel} : M (option stmt * 
         end
     | PAssignment op target value sp =>
         value' <- re value ;;
-        target' <- assign_s f e target ;;
+        target' <- assign_s lf f e target ;;
         same (Some (SAssignment (assign_binop op) target' value' sp))
     | PLoop cond body sp =>
         cond' <- re cond ;;
@@ -254,22 +255,26 @@ with stmt_s (fuel : nat) (e : env) (s : pstmt) {struct fuel} : M (option stmt * 
     end
   end.
 
-Definition resolve_spec_m (fuel : nat) (ast : past) : M (list stmt) :=
+Definition resolve_spec_m (lf : bool) (fuel : nat) (ast : past) : M (list stmt) :=
   _ <- for_each insert_namespace_and_add_definitions ast ;;
   _ <- for_each (fun m => resolve_global_variables (m_file m) (m_stmts m)) ast ;;
-  out <- seq_with (stmt_s fuel) [] (flat_map m_stmts ast) ;;
+  out <- seq_with (stmt_s lf fuel) [] (flat_map m_stmts ast) ;;
   start <- lift (fun st => lookup_global st 0 "start") ;;
   match start with
   | None => fail ENoStart (span_zero 0)
   | Some _ => ret out
   end.
 
-Definition resolve_spec_fuel (fuel : nat) (ast : past) : res resolved :=
-  match resolve_spec_m fuel ast (init_state ast) with
+Definition resolve_spec_fuel (lf : bool) (fuel : nat) (ast : past) : res resolved :=
+  match resolve_spec_m lf fuel ast (init_state ast) with
   | Ok (out, st) => Ok (mkResolved (rev (st_vars st)) out)
   | Err e => Err e
   | Panic s => Panic s
   | OutOfFuel => OutOfFuel
   end.
 
-Definition resolve_spec (ast : past) : res resolved := resolve_spec_fuel (fuel_of ast) ast.
+(* lf = true: the documented scoping; lf = false: the same with the namespace table consulted before
+   the scope for the root of `x.f` *)
+Definition resolve_spec_g (lf : bool) (ast : past) : res resolved := resolve_spec_fuel lf (fuel_of ast) ast.
+Definition resolve_spec (ast : past) : res resolved := resolve_spec_g true ast.
+Definition resolve_spec_nsfirst (ast : past) : res resolved := resolve_spec_g false ast.
